@@ -579,6 +579,10 @@ class ComplexBinghamTrainer:
         covariance /= denominator
         covariance = force_hermitian(covariance)
         scatter_eigenvalues, eigenvecs = np.linalg.eigh(covariance)
+        # The scatter matrix is positive semidefinite. For rank deficient
+        # data (duplicated, collinear or too few frames) eigh returns
+        # eigenvalues like -1e-17 instead of zero.
+        scatter_eigenvalues = np.maximum(scatter_eigenvalues, 0)
 
         eigenvalues = np.empty_like(scatter_eigenvalues)
         for index in np.ndindex(scatter_eigenvalues.shape[:-1]):
